@@ -15,6 +15,7 @@ from values import *
 from audit import *
 from loader import load
 import models
+import panicmodels
 
 CRATES = ['identity_core', 'identity_did', 'identity_jose', 'identity_verification', 'identity_document', 'identity_credential',
           'identity_iota_core', 'identity_storage']
@@ -88,13 +89,13 @@ def run(ctx, prog):
             f = prog.one(rx, sig=sig)
             A = Auditor(ctx, prog)
             try:
-                paths, ex = A.paths(f, inline=inline, unwind=unwind, allow_bound=True, max_depth=8, same_file=True)
+                paths, ex = A.paths(f, inline=inline, unwind=unwind, allow_bound=True, max_depth=8, same_file=True, extra_models=panicmodels.PANIC_MODELS)
             except Refuse as e:
                 # a same-file helper the executor cannot follow stays an uninterpreted callee (as listed per entry point)
                 note = '%s: same-file helpers not inlined (%s)' % (name, str(e)[:80])
                 if note not in ctx.outside:
                     ctx.outside.append(note)
-                paths, ex = A.paths(f, inline=inline, unwind=unwind, allow_bound=True, max_depth=8)
+                paths, ex = A.paths(f, inline=inline, unwind=unwind, allow_bound=True, max_depth=8, extra_models=panicmodels.PANIC_MODELS)
             panics = [p for p in paths if p.kind == 'panic']
             reach = [p for p in paths if p.kind == 'return']
             if not reach:
